@@ -361,6 +361,9 @@ class World:
                     # report what was iterated before the exception (C18 speaks about it)
                     return f"err {exc_name(e)} pulls_exec={self.pulls(before)}"
                 pe = self.pulls(before)
+                # markers whose cached payload IS a leaf's row container (the processor attached the leaf's
+                # own payload object): reading that cache counts as an iteration of the leaf
+                shared = self.markers_holding_leaf_payloads(r)
                 try:
                     before = dict(self.counters)
                     rows1 = list(it)
@@ -373,7 +376,7 @@ class World:
                 s1, s2 = proto.show_rows(rows1), proto.show_rows(rows2)
                 return (
                     f"ok rows={s1} again={'same' if s1 == s2 else 'diff'} pulls_exec={pe} "
-                    f"pulls_iter1={p1} pulls_iter2={p2}"
+                    f"pulls_iter1={p1} pulls_iter2={p2} shared=[{','.join(shared)}]"
                 )
             case ["sem", n]:
                 self.pool[n]
@@ -591,6 +594,30 @@ class World:
                 changed.append(name)
         self._snap = new
         return changed
+
+
+    @staticmethod
+    def markers_holding_leaf_payloads(r) -> list[str]:
+        """Leaf names, one per marker of the tree (not below another cached marker) whose payload object is
+        a leaf's `CountingSequence`."""
+        from lsst.daf.relation import BinaryOperationRelation, MarkerRelation, UnaryOperationRelation
+
+        out: list[str] = []
+        stack = [r]
+        while stack:
+            x = stack.pop()
+            if isinstance(x, MarkerRelation):
+                if x.payload is not None:
+                    if isinstance(x.payload, CountingSequence):
+                        out.append(x.payload._name)
+                    continue
+                stack.append(x.target)
+            elif isinstance(x, UnaryOperationRelation):
+                stack.append(x.target)
+            elif isinstance(x, BinaryOperationRelation):
+                stack.append(x.lhs)
+                stack.append(x.rhs)
+        return sorted(out)
 
     def pulls(self, before: dict[str, int]) -> str:
         out = []
